@@ -13,7 +13,7 @@
    then confirmed on the real code: errors built through the public API from strings with a
    truncated marker prefix at the end of a line render with an unbalanced marker. *)
 From Errv Require Import Base.Str Redact.Markers Redact.Buffer Model.Err Model.Sem Model.Build Model.Report
-     Proofs.RedactFacts Proofs.RedactWf Proofs.EngineWf Proofs.ApiWf.
+     Proofs.RedactFacts Proofs.RedactWf Proofs.EngineWf Proofs.ApiWf Proofs.ApiWfPlus.
 
 (* ---- for ARBITRARY BYTES (marker bytes, newlines anywhere, NUL, invalid or
    truncated UTF-8), proofs in Proofs/RedactWf.v ---- *)
@@ -141,6 +141,36 @@ Print Assumptions C06_api_condition_needed.
 Example C06_api_example :
   in_fragment ex_transfer_recipe = true /\ strs_ok ex_transfer_recipe = true /\ no_transfer ex_transfer_recipe = false.
 Proof. exact ex_transfer_recipe_ok. Qed.
+
+(* ... and WITHOUT the restriction on %+v error arguments (Proofs/ApiWfPlus.v): for EVERY constructor expression,
+   under the string condition [strs_ok'] = [strs_ok] plus: the strings an error argument printed with %+v shows
+   behind p.Detail() (hints, details, links, keys, domains, tags, safe-detail formats) are tidy too -- they become
+   part of a MESSAGE there -- and frames whose names are tidy.  [fragment_strs_ok']: the old fragment is contained.
+   No witness shows the strengthening necessary (C06_api_strengthening_not_shown_needed). *)
+Theorem C06_api_all : forall env r s e s',
+  strs_ok' r = true -> stacks_ok' env -> build env r s = (Some e, s') ->
+  wf_red (fmt_red_short e) = true /\ wf_red (fmt_red_verbose e) = true /\
+  Forall (fun l => wf_red l = true) (split_on nl (fmt_red_verbose e)).
+Proof.
+  intros env r s e s' S K E.
+  split; [exact (api_short_rendering_wf_all env r s e s' S K E)|].
+  split; [exact (api_verbose_rendering_wf_all env r s e s' S K E)|exact (api_verbose_lines_wf_all env r s e s' S K E)].
+Qed.
+Print Assumptions C06_api_all.
+
+Theorem C06_api_all_contains_fragment : forall r, in_fragment r = true -> strs_ok r = true -> strs_ok' r = true.
+Proof. exact fragment_strs_ok'. Qed.
+Print Assumptions C06_api_all_contains_fragment.
+
+Example C06_api_all_example : strs_ok' ex_plus_recipe = true /\ in_fragment ex_plus_recipe = false.
+Proof. exact ex_plus_recipe_ok. Qed.
+
+Example C06_api_strengthening_not_shown_needed :
+  strs_ok untidy_recipe = true /\ strs_ok' untidy_recipe = false /\
+  stacks_ok untidy_env /\ ~ stacks_ok' untidy_env /\
+  exists e s', build untidy_env untidy_recipe bs_init = (Some e, s') /\
+    wf_red (fmt_red_short e) = true /\ wf_red (fmt_red_verbose e) = true.
+Proof. exact untidy_still_wf. Qed.
 
 (* hostile contents everywhere else are fine: evaluated instance of the two theorems *)
 Example C06_engine_example :
